@@ -189,6 +189,9 @@ func checkC02(r *Run) {
 				nRows := r.n(2, 4)
 				for k := 0; k < nRows; k++ {
 					row := rows[(i+k*3+ai)%len(rows)]
+					if ai > 0 && k == 0 {
+						row = rows[0] // every fixed schema is generated at least once with builders and converters
+					}
 					id := fmt.Sprintf("r%04d", idx)
 					idx++
 					dir := filepath.Join(root, "in", id)
